@@ -1706,4 +1706,31 @@ theorem parents (S : Replay e ops certs votes rops) (hnf : NfAgree (poolLog { ep
 
 end Replay
 
+/-- `NfAgree` with bounded quantifiers -/
+def NfAgreeC (L : List LogItem) : Prop :=
+  ∀ it ∈ L, match it with
+    | .cert c => c.kind = .nf → (c.slot = 0 → c.hash = 0) ∧ ∀ b ∈ Finality.finals (finOps L), b.1 = c.slot → c.hash = b.2
+    | .block _ _ => True
+
+instance (L : List LogItem) : Decidable (NfAgreeC L) := by
+  unfold NfAgreeC
+  have : ∀ it : LogItem, Decidable (match it with
+    | .cert c => c.kind = .nf → (c.slot = 0 → c.hash = 0) ∧ ∀ b ∈ Finality.finals (finOps L), b.1 = c.slot → c.hash = b.2
+    | .block _ _ => True) := by
+    intro it; cases it <;> infer_instance
+  infer_instance
+
+theorem nfAgreeC_iff {L : List LogItem} (sf : Finality.Safe (finOps L)) : NfAgreeC L ↔ NfAgree L := by
+  constructor
+  · intro h c hm hk
+    have := h (.cert c) hm hk
+    exact ⟨this.1, fun hh hf => this.2 (c.slot, hh) ((Finality.mem_finals sf.link_lt).mpr hf) rfl⟩
+  · intro h it hm
+    cases it with
+    | block b par => trivial
+    | cert c =>
+      intro hk
+      refine ⟨(h c hm hk).1, fun b hb e => ?_⟩
+      exact (h c hm hk).2 b.2 (by rw [← e]; exact (Finality.mem_finals sf.link_lt).mp hb)
+
 end AgModel.Pool
